@@ -264,6 +264,10 @@ pub struct ChainCase {
     /// rewrite a tracked file with identical bytes (new mtime) before each probe: still a clean checkout
     #[serde(default)]
     pub touch: bool,
+    /// the first plain commit after the tag adds a file named exactly like the tag (release notes,
+    /// a marker file): a revision argument of that name is ambiguous to git without `--` (F25)
+    #[serde(default)]
+    pub ref_file: bool,
 }
 fn check_chain(c: &ChainCase, cx: &mut Cx) -> Res {
     use crate::gitlab::{Op, Repo};
@@ -312,6 +316,9 @@ fn check_chain(c: &ChainCase, cx: &mut Cx) -> Res {
         }
     }
     let tagged_commit = repo.model.head_commit();
+    repo.model.tags.push(crate::gitlab::TagM { name: tag.clone(), commit: tagged_commit, annotated: false });
+    let mut ref_file_pending = c.ref_file;
+    cx.label_if(c.ref_file && c.steps.iter().any(|m| !*m), "file-named-like-the-tag");
     if c.touch && !(run(&mut repo, Op::TouchUnchanged) && run(&mut repo, Op::EmptyDir)) {
         return Ok(());
     }
@@ -334,7 +341,14 @@ fn check_chain(c: &ChainCase, cx: &mut Cx) -> Res {
     }
     let mut prev: [String; 2] = [x.clone(), x.clone()];
     for (i, merge) in c.steps.iter().enumerate() {
-        let op = if *merge { Op::Merge { other: 0, third: None, time_skew: -50_000 } } else { Op::Commit { time_skew: if i % 2 == 0 { -100_000 } else { 50_000 } } };
+        let op = if *merge {
+            Op::Merge { other: 0, third: None, time_skew: -50_000 }
+        } else if ref_file_pending {
+            ref_file_pending = false;
+            Op::FileLikeRef { which: 0, tracked: true }
+        } else {
+            Op::Commit { time_skew: if i % 2 == 0 { -100_000 } else { 50_000 } }
+        };
         if !run(&mut repo, op) {
             return Ok(());
         }
@@ -455,8 +469,8 @@ pub fn property() -> Property {
         "git-chains",
         (100, 1_500),
         |tier| {
-            ((0u64..30, 0u64..30, 0u64..30), any::<bool>(), proptest::option::weighted(0.7, 0usize..10), 0u8..3, proptest::collection::vec(prop::bool::weighted(0.25), 0..tier.pick(6, 12)), 0usize..7, 1u32..=9, prop::bool::weighted(0.4))
-                .prop_map(|((a, b, c), v_prefix, branch, before, steps, preset, hash_len, touch)| ChainCase { tag: [a, b, c], v_prefix, branch, before, steps, preset, hash_len, touch })
+            ((0u64..30, 0u64..30, 0u64..30), any::<bool>(), proptest::option::weighted(0.7, 0usize..10), 0u8..3, proptest::collection::vec(prop::bool::weighted(0.25), 0..tier.pick(6, 12)), 0usize..7, 1u32..=9, prop::bool::weighted(0.4), prop::bool::weighted(0.3))
+                .prop_map(|((a, b, c), v_prefix, branch, before, steps, preset, hash_len, touch, ref_file)| ChainCase { tag: [a, b, c], v_prefix, branch, before, steps, preset, hash_len, touch, ref_file })
                 .boxed()
         },
         check_chain,
